@@ -55,6 +55,9 @@ def run(rep, rng, tier, replay=None):
         xs = SC.floats(fi["x"])
         tab = o.get("table_bits")
         bad = []
+        if not all(math.isfinite(v) and v > 0 for v in xpre + xs):
+            gap["underflow_skipped"] = gap.get("underflow_skipped", 0) + 1     # kappa under/overflowed: beyond binary64 range
+            continue
         # the implementation's own table
         W = [b2f(v) for v in timpl["dod_bits"]]
         # sector formula
@@ -94,7 +97,8 @@ def run(rep, rng, tier, replay=None):
         # V_tr * U_tr = largest monomial of F for generic kinematics (validation of the named gap)
         ext = set(c["externals"])
         allv = {v for p in n["pairs"] for v in p}
-        if ext <= allv and (len(ext) >= 2 or any(e[2] for e in c["edges"])):
+        # one declared external vertex cannot carry momentum (conservation): no generic kinematics exist, skipped
+        if ext <= allv and (len(ext) >= 2 or (len(ext) == 0 and any(e[2] for e in c["edges"]))):
             fm = f_monomial_max(c, xq, trees)
             if fm is not None:
                 gap["vtrop_checked"] += 1
